@@ -951,7 +951,7 @@ func init() {
 					literal = true
 					// the literal's recorded type may be *T (an element literal with elided type in []*T{{…}})
 					through := false
-					ast.Inspect(lit.Body, func(nd ast.Node) bool {
+					af.inspect(lit.Body, func(nd ast.Node) bool {
 						if as2, ok := nd.(*ast.AssignStmt); ok && len(as2.Lhs) == 1 && len(as2.Rhs) == 1 && as2.Tok == token.ASSIGN {
 							if af.isCall(as2.Rhs[0], "go/types.Pointer.Elem") != nil && af.Info.TypeOf(as2.Lhs[0]) != nil && types.TypeString(af.Info.TypeOf(as2.Lhs[0]), nil) == "go/types.Type" {
 								through = true
